@@ -355,41 +355,51 @@ def run_probe(case):
 
 
 class GridRng:
-    """Stub with the two methods the generators use; uniform() returns an exact regular grid."""
+    """Stands in for the generator's numpy random source: every draw of n uniform variates returns an exact regular grid
+    (odd draws ascending, even draws descending), through whichever method the library asks (uniform / random)."""
 
     def __init__(self):
         self.calls = []
 
-    def uniform(self, lo, hi, n):
-        self.calls.append(("uniform", lo, hi, n))
-        u = (np.arange(n) + 0.5) / n
-        if len(self.calls) % 2 == 0:
-            u = u[::-1]  # second coordinate: another arrangement of the same grid
-        return lo + u * (hi - lo)
+    def _grid(self, n):
+        u = (np.arange(int(n)) + 0.5) / int(n)
+        return u[::-1] if len(self.calls) % 2 == 0 else u
 
-    def integers(self, lo, hi, size):
-        self.calls.append(("integers", lo, hi, size))
-        return (np.arange(size) * 3 + 1) % hi
+    def uniform(self, low=0.0, high=1.0, size=None):
+        self.calls.append(("uniform", low, high, size))
+        return low + self._grid(size) * (high - low)
+
+    def random(self, size=None, *a, **k):
+        self.calls.append(("random", 0.0, 1.0, size))
+        return self._grid(size)
+
+    def integers(self, low, high=None, size=None, **k):
+        if high is None:
+            low, high = 0, low
+        if k.get("endpoint"):
+            high = high + 1
+        self.calls.append(("integers", low, high, size))
+        return low + (np.arange(size) * 3 + 1) % (high - low)
 
 
 def run_uniform(case):
     win, n = case["window"], case["n"]
     gen = make_gen(win, "", 1)
     gen.rng = GridRng()
-    ra, dec = gen._draw_coords(n)
+    pts = gen(n)  # the public draw; the coordinates come from two grids of uniform variates (in either arrangement)
+    ra, dec = np.asarray(pts["ra"]), np.asarray(pts["dec"])
     ra0, ra1, d0, d1 = np.deg2rad(WINDOWS[win])
     u = (np.arange(n) + 0.5) / n
     v = []
-    want_ra = ra0 + u * (ra1 - ra0)
-    want_sin = np.sin(d0) + u[::-1] * (np.sin(d1) - np.sin(d0))
-    if not np.allclose(ra, want_ra, rtol=0, atol=1e-14):
+
+    def linear(values, lo, hi):
+        return any(np.allclose(values, lo + g * (hi - lo), rtol=0, atol=1e-14) for g in (u, u[::-1]))
+
+    if not linear(ra, ra0, ra1):
         v.append(dict(signature=f"C16/uniform/ra-map/{win}", what="right ascension is not linear in the uniform variate"))
-    if not np.allclose(np.sin(dec), want_sin, rtol=0, atol=1e-14):
+    if not linear(np.sin(dec), np.sin(d0), np.sin(d1)):
         v.append(dict(signature=f"C16/uniform/area-map/{win}",
                       what="sin(dec) is not linear in the uniform variate: points are not uniform in area"))
-    kinds = [c[0] for c in gen.rng.calls]
-    if kinds != ["uniform", "uniform"]:
-        v.append(dict(signature="C16/uniform/draws", what=f"unexpected random draws {kinds}"))
     return v, True
 
 
